@@ -79,11 +79,44 @@ Definition mem_bytes (x : bytes) (l : list bytes) : bool := existsb (beq_bytes x
 
 Definition is_empty (b : bytes) : bool := match b with [] => true | _ => false end.
 
-(** [CheckTime]. *)
+(** ** [time.Time] as the code uses it
+
+    [time.Unix(sec, 0)] stores [sec + 62135596800] in an [int64], which wraps for
+    [sec] within 62135596800 of 2^63; [Add] then moves the seconds with
+    saturation; [Before]/[After] compare (seconds, nanoseconds).  The
+    verification instant [now] is [time.Unix(0, now)] with [now] an [int64]
+    nanosecond count, whose seconds never come near the wrap. *)
+Definition unix_to_internal : Z := 62135596800.
+Definition two63 : Z := 9223372036854775808.
+Definition wrap64 (z : Z) : Z := (z + two63) mod (2 * two63) - two63.
+
+Definition ext_of_unix (sec : Z) : Z := wrap64 (sec + unix_to_internal).
+
+(** [Time.addSec]. *)
+Definition add_sec_sat (ext d : Z) : Z :=
+  let sum := wrap64 (ext + d) in
+  if Bool.eqb (ext <? sum) (0 <? d) then sum
+  else if 0 <? d then two63 - 1 else - (two63 - 1).
+
+Definition time_before (e1 n1 e2 n2 : Z) : bool := (e1 <? e2) || ((e1 =? e2) && (n1 <? n2)).
+
+Definition now_ext (now : Z) : Z := now / sec_ns + unix_to_internal.
+Definition now_nsec (now : Z) : Z := now mod sec_ns.
+
+Definition grace_sec : Z := 300.
+
+(** [CheckTime]: issued = Unix(iat, 0).Add(-5 min) must be before now;
+    now must not be after Unix(exp, 0). *)
 Definition check_time (c : claims) (now : Z) : option jerr :=
-  if negb (c_iat c * sec_ns - grace_ns <? now) then Some EFuture
-  else if c_exp c * sec_ns <? now then Some EExpired
+  if negb (time_before (add_sec_sat (ext_of_unix (c_iat c)) (- grace_sec)) 0 (now_ext now) (now_nsec now))
+  then Some EFuture
+  else if time_before (ext_of_unix (c_exp c)) 0 (now_ext now) (now_nsec now) then Some EExpired
   else None.
+
+(** Seconds that stay clear of the wrap (any real claim or key time does). *)
+Definition unix_in_range (sec : Z) : Prop := - 4611686018427387904 <= sec <= 4611686018427387904.
+Definition unix_in_rangeb (sec : Z) : bool :=
+  (- 4611686018427387904 <=? sec) && (sec <=? 4611686018427387904).
 
 (** [checkHeader]. *)
 Definition check_header (got want : header) : option jerr :=
@@ -184,8 +217,9 @@ Section Jwt.
 
   (** [publicKeyValid]. *)
   Definition key_valid (k : pubkey) (now : Z) : option jerr :=
-    if (0 <? pk_nvb k) && (now <? pk_nvb k * sec_ns) then Some EKeyNotYet
-    else if pk_nva k * sec_ns <? now then Some EKeyExpired
+    if (0 <? pk_nvb k) && time_before (now_ext now) (now_nsec now) (ext_of_unix (pk_nvb k)) 0
+    then Some EKeyNotYet
+    else if time_before (ext_of_unix (pk_nva k)) 0 (now_ext now) (now_nsec now) then Some EKeyExpired
     else None.
 
   (** [jwtVerifier.Verify]. *)
@@ -219,4 +253,66 @@ Section Jwt.
         | None => JOk t
         end
     end.
+  (** ** Signing side: [simpleCore.Sign]'s choice of key (identity/simple_core.go)
+
+      [privs]: the stored private keys (id, material) in order; [req]: the key id
+      asked for ([jwtSigner] asks for the id of the card's last public key; an
+      empty id means "the last private key"). *)
+  Context {PM SK : Type}.
+  Variable parse_priv : PM -> option SK.          (* rsautil.ParsePrivateKey *)
+
+  Inductive cs_err := CsNoKey | CsKeyNotFound | CsPubNotFound | CsType | CsNotYet | CsExpired | CsParse.
+
+  Inductive cres (A : Type) := COk (a : A) | CErr (e : cs_err).
+  Arguments COk {A} a.
+  Arguments CErr {A} e.
+
+  Definition core_pick (privs : list (bytes * PM)) (card : list pubkey) (req : bytes) (now : Z)
+    : cres (bytes * SK) :=
+    match privs with
+    | [] => CErr CsNoKey
+    | p0 :: _ =>
+        let pick := if is_empty req then Some (last privs p0)
+                    else find (fun p => beq_bytes (fst p) req) privs in
+        match pick with
+        | None => CErr CsKeyNotFound
+        | Some (id, pm) =>
+            match find_key card id with
+            | None => CErr CsPubNotFound
+            | Some pub =>
+                if negb (beq_bytes (pk_type pub) key_type_rsa) then CErr CsType
+                else match key_valid pub now with
+                     | Some EKeyNotYet => CErr CsNotYet
+                     | Some _ => CErr CsExpired
+                     | None =>
+                         match parse_priv pm with
+                         | None => CErr CsParse
+                         | Some sk => COk (id, sk)
+                         end
+                     end
+            end
+        end
+    end.
+
+  (** ** [authgate.Exchange]: an access token for a session token
+
+      The tokener is a [Gate] over sessions with key [sk] and maximum lifetime
+      [maxttl]; [sess] is [Sessions.New] (Cred/Sign.v) at the same instant. *)
+  Inductive x_err := XNoToken | XToken (e : jerr) | XClaims (e : jerr) | XTtl.
+
+  Definition exchange {S : Type} (sess : Z -> bytes -> S)
+             (card : list pubkey) (issuer audience : bytes) (now : Z)
+             (tok user : bytes) (ttl : Z) : S + x_err :=
+    if is_empty tok then inr XNoToken
+    else match rs_verify card now tok with
+         | JErr e => inr (XToken e)
+         | JOk t =>
+             match check_claims (t_claims t) (mkC issuer [] audience 0 0 [] user) with
+             | Some e => inr (XClaims e)
+             | None => if ttl <=? 0 then inr XTtl else inl (sess ttl user)
+             end
+         end.
 End Jwt.
+
+Arguments COk {A} a.
+Arguments CErr {A} e.
